@@ -20,6 +20,9 @@ CHECKS = {
     "C12": dict(cat="other", tech="symbolic execution of the rule constructors (z3 terms) + SMT (LIA path exploration for unbounded orders, LRA over all polynomials with symbolic coefficients, NRA for Duffy region maps)",
                 text="Bounded symbolic verification: lookups decided for every integer order (all paths of the real lookup code), exactness decided for every polynomial of the stated degree for all 20 triangle / 30 Gauss orders and Duffy orders 2..4 (5 thorough), region maps for all 1-D nodes in (0,1), remaps for every point. unsat = holds for all values within these bounds.",
                 ref="3/C12"),
+    "C13": dict(cat="other", tech="symbolic execution of the sparse assembler and GridFunction routines on free geometry; identities under a symbolic quadrature rule with moment hypotheses decided in LRA after sound monomial abstraction (z3/cvc5)",
+                text="Bounded symbolic verification: identity matrices (DP0/P1/DP1/RWG/SNC pairs, with segments) and Laplace-Beltrami equal the closed-form exact integrals for EVERY quadrature rule satisfying the moment equations of the needed degree; integrate, evaluate_on_element_centers, evaluate_on_vertices, projections and MultiplicationOperator equal a harness-written direct quadrature for all coefficients and geometry values, on meshes of <= 6 elements.",
+                ref="3/C13"),
     "C17": dict(cat="translation_validation", tech="symbolic execution of the FMM glue (fmm_assembler, exafmm interface, near-field helpers, map_to_points) with a fake exact-summation exafmm and an uninterpreted kernel family vs the dense assembler; polynomial identities with UFs (cvc5/z3) + NRA kernel lemmas",
                 text="For a symbolic vector and free geometry the FMM-mode matvec equals the dense-mode matvec row by row for scalar, hypersingular and Maxwell electric-field operators (whole-grid, boundary-dof and segment spaces) and scalar potentials, with the far field replaced by exact summation (both through a fake exafmm and through the library's own dense_evaluation switch); the kernel relations used to couple both paths are proved for the real kernels.",
                 ref="3/C17"),
